@@ -122,6 +122,26 @@ int main(void) {
 				KSI_TlvElement_free(e);
 			}
 			free(raw);
+		} else if (line[0] == 'T') {
+			/* T <hex>: parse, then render with KSI_TLV_toString into heap buffers of EXACTLY n bytes for many n (ASan sees a write past the buffer);
+			 * every rendering must be NUL-terminated inside its buffer and a prefix of the full rendering -> T rc=.. full=<len> bad=<count> */
+			KSI_TLV *t = NULL; int rc; int bad = 0; size_t full = 0;
+			raw = hx_dec(line + 2, &len);
+			rc = len >= 1 ? KSI_TLV_parseBlob(ctx, raw, len, &t) : KSI_INVALID_FORMAT;
+			if (rc == KSI_OK) {
+				size_t cap = len * 8 + 4096, n; char *ref = H_MALLOC(cap); size_t sizes[400]; int ns = 0, k;
+				ref[0] = 0; KSI_TLV_toString(t, ref, cap); full = strlen(ref);
+				for (n = 1; n <= 130; n++) sizes[ns++] = n;
+				for (n = full > 70 ? full - 70 : 1; n <= full + 6; n++) sizes[ns++] = n;
+				for (n = 1; n < 20; n++) sizes[ns++] = (full * n) / 20 + 1;
+				for (k = 0; k < ns; k++) { char *b = H_MALLOC(sizes[k]); char *r; memset(b, 'Z', sizes[k]);
+					r = KSI_TLV_toString(t, b, sizes[k]);
+					if (r != NULL) { size_t l = strnlen(b, sizes[k]); if (l >= sizes[k] || strncmp(b, ref, l) != 0) bad++; }
+					free(b); }
+				free(ref);
+			}
+			printf("T rc=%d full=%zu bad=%d\n", rc, full, bad);
+			KSI_TLV_free(t); free(raw);
 		} else if (line[0] == 'F') {
 			KSI_FTLV f; size_t cnt = 0; int rc, rn;
 			raw = hx_dec(line + 2, &len);
